@@ -125,6 +125,10 @@ class SimServer:
             except Exception as e:  # grpc turns uncaught exceptions into UNKNOWN
                 slot.error = (grpc.StatusCode.UNKNOWN, "Exception calling application: %r" % (e,))
                 sim.count("rpc.unknown_error")
+            if self.max_delay > 0 and self._delay_rng.random() < 0.3:
+                # the reply is held up on its way back (replies of one client may be re-ordered)
+                sim.count("rpc.reply_delayed")
+                sim.sleep(self._delay_rng.random() * self.max_delay)
             slot.done = True
             sim.seam("rpc.reply", method)
 
